@@ -241,60 +241,21 @@ func (it *Iterator) SequenceNumber() uint64 {
 	return it.currentSeqNum
 }
 
-// decodeCurrent decodes the entry at the current position
+// decodeCurrent decodes the entry at the current position, which must be a
+// restart point (full key), and advances past it like decodeNext does.
+// Without advancing, the following decodeNext would decode the same entry
+// again and every block would yield its first entry twice.
 func (it *Iterator) decodeCurrent() ([]byte, []byte, bool) {
-	if it.currentPos >= it.dataEnd {
+	// Forget the previous key so that decodeNext reads a full key
+	it.currentKey = nil
+
+	key, value, ok := it.decodeNext()
+	if !ok {
 		return nil, nil, false
-	}
-
-	data := it.reader.data[it.currentPos:]
-
-	// Read key
-	if len(data) < 2 {
-		return nil, nil, false
-	}
-	keyLen := binary.LittleEndian.Uint16(data)
-	data = data[2:]
-	if uint32(len(data)) < uint32(keyLen) {
-		return nil, nil, false
-	}
-
-	key := make([]byte, keyLen)
-	copy(key, data[:keyLen])
-	data = data[keyLen:]
-
-	// Read sequence number if format includes it (check if enough data for both seq num and value len)
-	seqNum := uint64(0)
-	if len(data) >= 12 { // 8 for seq num + 4 for value len
-		seqNum = binary.LittleEndian.Uint64(data)
-		data = data[8:]
-	}
-
-	// Read value
-	if len(data) < 4 {
-		return nil, nil, false
-	}
-
-	valueLen := binary.LittleEndian.Uint32(data)
-	data = data[4:]
-
-	var value []byte
-	if valueLen == TombstoneValueLengthMarker {
-		// This is a tombstone - value remains nil
-		value = nil
-	} else {
-		// Regular value
-		if uint32(len(data)) < valueLen {
-			return nil, nil, false
-		}
-
-		value = make([]byte, valueLen)
-		copy(value, data[:valueLen])
 	}
 
 	it.currentKey = key
 	it.currentVal = value
-	it.currentSeqNum = seqNum
 
 	return key, value, true
 }
